@@ -116,11 +116,12 @@ def respace(text, rnd):
 
 LEAVES = ["0", "-0", "7", "-9223372036854775808", "9223372036854775807", "9223372036854775808", "1e3", "1.5", "-2.5e-3", "1e308", "1e-320", "0.1", "100000000000000000000.0",
           "1.7976931348623157e308", "5e-324", "\"\"", "\"a\\nb\"", "\"\\t\\\"q\\\\\"", "\"\\x00\\x7f\"", "\"\\u2028\\u00e9\"", "\"caf\\xc3\\xa9\"", "\"\\xff\"", "sym", "a.b", "+1", "-a", "x:y", ":kw", ":1",
-          "a:+1", "&rest", "%1", "true", "false", "'a", "''a", "'(1 'b)", "'()", "()", "[1 2]", "(a (b (c)))", "'('(1))", "\"\"\"raw \" x\"\"\"", "#^(+ % 1)", "#'car"]
+          "a:+1", "&rest", "%1", "true", "false", "'a", "''a", "'(1 'b)", "'()", "()", "[1 2]", "(a (b (c)))", "'('(1))", "\"\"\"raw \" x\"\"\"", "#^(+ % 1)", "#'car",
+          "1e999", "-2e308", "1.5e+400", "'(1 1e999)", "1e-999", "99999999999999999999", "-9223372036854775809", "#x7fffffffffffffff", "#xffffffffffffffffff", "#o777", "#o7777777777777777777777", "1.7976931348623159e308"]
 
 
 # the only leaf above that no reader may accept: one past the largest int
-LEAF_REJECT = {"9223372036854775808"}
+LEAF_REJECT = {"9223372036854775808", "1e999", "-2e308", "1.5e+400", "'(1 1e999)", "99999999999999999999", "-9223372036854775809", "#xffffffffffffffffff", "#o7777777777777777777777", "1.7976931348623159e308"}
 
 
 def run(tier):
